@@ -1,11 +1,11 @@
 #!/bin/sh
 # usage: tools/seeded.sh <ID> <PROP>[,PROP...] [name]  -- confirm a sub-agent's seeded defect and run checks against it
-ID="$1"; PROPS="$2"; NAME="${3:-$1}"
-SRC=/tmp/seed-$ID-out
+ID="$1"; PROPS="$2"; NAME="${3:-$1}"; PFX="${4:-seed}"
+SRC=/tmp/$PFX-$ID-out
 D=/tmp/sv-$ID-$$
 [ -f "$SRC/patch.diff" ] || { echo "no patch in $SRC"; exit 2; }
 git -C /repo worktree add -q --detach "$D" HEAD || exit 2
-trap 'git -C /repo worktree remove --force "$D" >/dev/null 2>&1; git -C /repo worktree remove --force /tmp/seed-'$ID' >/dev/null 2>&1; true' EXIT
+trap 'git -C /repo worktree remove --force "$D" >/dev/null 2>&1; git -C /repo worktree remove --force /tmp/'$PFX'-'$ID' >/dev/null 2>&1; true' EXIT
 if ! git -C "$D" apply "$SRC/patch.diff"; then echo "PATCH DOES NOT APPLY"; exit 2; fi
 echo "--- tests with the change"
 (cd "$D" && timeout 1500 /venv/bin/python -m pytest -q -p no:cacheprovider --timeout=900 --continue-on-collection-errors 2>&1 | tail -1) | tee /tmp/sv-tests-$ID.txt
